@@ -325,3 +325,100 @@ func (x *Exec) wctxModel(cs *callSite, name string) *Val {
 	}
 	return x.freshResult(st, "wctx", cs.res)
 }
+
+// net / http / session models used by the dashboard authentication (C19).
+func init() {
+	decl := func(x *Exec) {
+		x.sc.Decl("netfns", `(declare-fun net.host (Str) Str)
+(declare-fun net.splitok (Str) Bool)
+(declare-fun net.iploopback (Str) Bool)
+(declare-fun net.iploop (Slice) Bool)`)
+	}
+	libModels["net.SplitHostPort"] = func(x *Exec, cs *callSite) *Val {
+		decl(x)
+		x.assumeNote("net.SplitHostPort / net.ParseIP / IP.IsLoopback are deterministic functions of their string argument (uninterpreted)")
+		s := x.term(cs.args[0])
+		tup := cs.res.(*types.Tuple)
+		e := x.sc.Fresh("split_err", SIface)
+		x.assume(cs.st, Eq(Eq(e, Term{"inil", SIface}), App(SBool, "net.splitok", s)))
+		return &Val{Ty: tup, Tuple: []*Val{{T: App(SStr, "net.host", s), Ty: tup.At(0).Type()}, x.freshVal(cs.st, "port", tup.At(1).Type()), {T: e, Ty: errorType}}}
+	}
+	libModels["net.ParseIP"] = func(x *Exec, cs *callSite) *Val {
+		decl(x)
+		ip := x.freshVal(cs.st, "ip", cs.res)
+		x.assume(cs.st, Eq(App(SBool, "net.iploop", ip.T), App(SBool, "net.iploopback", x.term(cs.args[0]))))
+		return ip
+	}
+	libModels["(net.IP).IsLoopback"] = func(x *Exec, cs *callSite) *Val {
+		decl(x)
+		return &Val{T: App(SBool, "net.iploop", x.term(cs.args[0])), Ty: types.Typ[types.Bool]}
+	}
+	for n, f := range map[string]string{"nethost": "net.host", "netsplitok": "net.splitok", "iploopback": "net.iploopback"} {
+		f := f
+		srt := SBool
+		if n == "nethost" {
+			srt = SStr
+		}
+		contractBuiltins[n] = func(x *Exec, env *CEnv, c *CCall) (*CV, error) {
+			v, err := x.eval(env, c.Args[0])
+			if err != nil {
+				return nil, err
+			}
+			decl(x)
+			ty := types.Type(types.Typ[types.Bool])
+			if srt == SStr {
+				ty = types.Typ[types.String]
+			}
+			return &CV{T: App(srt, f, x.cvTerm(v, nil)), Ty: ty}, nil
+		}
+	}
+	// session.Get: whether the request carries a session this process issued (ghost session_err)
+	libModels["github.com/kr/session.Get"] = func(x *Exec, cs *callSite) *Val {
+		x.assumeNote("kr/session.Get returns nil exactly for a cookie that decrypts under this process's key (ghost session_err); it has no effect on program memory")
+		old, ok := cs.st.ghost["n_session_get"]
+		if !ok {
+			old = IntConst(0)
+		}
+		cs.st.ghost["n_session_get"] = x.sc.Define("n_session_get", App(SInt, "+", old, IntConst(1)))
+		return &Val{T: cs.st.ghost["session_err"], Ty: errorType}
+	}
+	libMods["github.com/kr/session.Get"] = func(x *Exec, m *modSet, _ *ssa.Function) { m.ghost["n_session_get"] = true }
+	libModels["github.com/kr/session.Set"] = func(x *Exec, cs *callSite) *Val {
+		old, ok := cs.st.ghost["n_session_set"]
+		if !ok {
+			old = IntConst(0)
+		}
+		cs.st.ghost["n_session_set"] = x.sc.Define("n_session_set", App(SInt, "+", old, IntConst(1)))
+		return x.freshResult(cs.st, "session_set", cs.res)
+	}
+	libMods["github.com/kr/session.Set"] = func(x *Exec, m *modSet, _ *ssa.Function) { m.ghost["n_session_set"] = true }
+	libModels["net/http.Redirect"] = func(x *Exec, cs *callSite) *Val {
+		x.assumeNote("http.Redirect only writes the response (ghost redirect_code/redirect_url)")
+		cs.st.ghost["redirect_url"] = x.term(cs.args[2])
+		cs.st.ghost["redirect_code"] = x.term(cs.args[3])
+		old, ok := cs.st.ghost["n_redirect"]
+		if !ok {
+			old = IntConst(0)
+		}
+		cs.st.ghost["n_redirect"] = x.sc.Define("n_redirect", App(SInt, "+", old, IntConst(1)))
+		return &Val{}
+	}
+	libMods["net/http.Redirect"] = func(x *Exec, m *modSet, _ *ssa.Function) {
+		m.ghost["redirect_url"], m.ghost["redirect_code"], m.ghost["n_redirect"] = true, true, true
+	}
+	libModels["net/http.Error"] = func(x *Exec, cs *callSite) *Val {
+		cs.st.ghost["http_error_code"] = x.term(cs.args[2])
+		return &Val{}
+	}
+	libMods["net/http.Error"] = func(x *Exec, m *modSet, _ *ssa.Function) { m.ghost["http_error_code"] = true }
+	libModels["crypto/subtle.ConstantTimeCompare"] = func(x *Exec, cs *callSite) *Val {
+		x.assumeNote("subtle.ConstantTimeCompare(a,b) == 1 iff bytes.Equal(a,b), else 0")
+		eq := x.sc.Define("ctc_eq", x.bytesEq(cs.st, x.term(cs.args[0]), x.term(cs.args[1])))
+		cs.st.ghost["ctc_equal"] = eq
+		cs.st.ghost["ctc_b"] = x.term(cs.args[1])
+		return &Val{T: x.sc.Define("ctc", Ite(eq, bv64(1), bv64(0))), Ty: types.Typ[types.Int]}
+	}
+	libMods["crypto/subtle.ConstantTimeCompare"] = func(x *Exec, m *modSet, _ *ssa.Function) {
+		m.ghost["ctc_equal"], m.ghost["ctc_b"] = true, true
+	}
+}
